@@ -126,8 +126,8 @@ PROPS = {
                "const.VALTYPE_DICT_ARRAY": "20", "const.VALTYPE_RAW_JSON": "21", "const.ZSTD_COMLUNAR_BLOCK": "0", "const.ZSTD_DICTIONARY_BLOCK": "1",
                "const.TIMESTAMP_TOPDIFF_VARENC": "2", "const.TS_Type8": "1", "const.TS_Type16": "2", "const.TS_Type32": "3", "const.TS_Type64": "4",
                "const.MAX_RECORD_SIZE": "63000", "const.MAX_RECS_PER_WIP": "65534", "const.wipCardLimit": "501"},
-        decided_by_proof="the on-disk value codecs the round trip rests on, for every input: one TLV record (decode∘encode = id for strings < 65536 bytes and every numeric kind; counterexample theorems for the uint16 length wrap at 65536 and for GetCvalFromRec at 65533; guard implied by MAX_RECORD_SIZE), a column block under ANY sequence of ReadRecord calls (forward scan, restart on backward seek), the consistent-length shortcut (sound exactly when the writer reports a consistent size; counterexample for a stale hint), the filling of a column with absent/null/late values composed with the reader (column_roundtrip), PackDictEnc/ReadDictEnc/deGetRec, the timestamp block incl. the block-summary low/high fold",
-        partial="end-to-end round trip (JSON flattening, consolidateColumnTypes, block/segment layout, zstd, checksummed file chunks, file offsets, record-to-event assembly across columns) is decided by the differential suite e2e_c01 against the layout-free specification, not by proof; RAW_JSON / DICT_ARRAY records (trace ingest) are not modelled; the records of the narrow numeric kinds (int8..int32, uint8..uint32) have no writer in /repo and are built by the harness",
+        decided_by_proof="the on-disk value codecs the round trip rests on, for every input: one TLV record (decode∘encode = id for strings < 65536 bytes and every numeric kind; counterexample theorems for the uint16 length wrap at 65536 and for GetCvalFromRec at 65533; guard implied by MAX_RECORD_SIZE), a column block under ANY sequence of ReadRecord calls (forward scan, restart on backward seek), the consistent-length shortcut (sound exactly when the writer reports a consistent size; counterexample for a length that is not every record's), the filling of a column with absent/null/late values composed with the reader (column_roundtrip), the flush-time marking + type consolidation composed with the reader (flush_roundtrip: the length the segment advertises is sound for the STORED records; counterexample theorem for the behaviour before fix 59208af), PackDictEnc/ReadDictEnc/deGetRec, the timestamp block incl. the block-summary low/high fold",
+        partial="end-to-end round trip (JSON flattening, the value relation of consolidateColumnTypes (number ↔ decimal text; only record count, well-formedness and the advertised length are proved, and float/bool conversions are not modelled), block/segment layout, zstd, checksummed file chunks, file offsets, record-to-event assembly across columns) is decided by the differential suite e2e_c01 against the layout-free specification, not by proof; RAW_JSON / DICT_ARRAY records (trace ingest) are not modelled; the records of the narrow numeric kinds (int8..int32, uint8..uint32) have no writer in /repo and are built by the harness",
         trusted_base=["zstd and the checksummed chunk file are exercised by the correspondence run (real writeWip / loadBlockUsingBuffer) but are not part of the model; uint32 offsets are modelled as naturals (blocks are far below 4 GiB); reader buffers are clipped to cap = len by an overlay hook so that reads past the end of a malformed block are deterministic panics instead of stale pool bytes"],
         assumptions=["one column at a time: cross-column alignment (duplicate JSON keys, columnsInBlock bookkeeping across blocks) is covered by e2e_c01 only",
                      "a zero timestamp never reaches the writer (GetNewPLE substitutes the current time); ts_zero_counterexample shows what would happen"],
@@ -217,6 +217,35 @@ PROPS = {
         partial="completeness of the builder list is NOT proved (found by reading and grep for filepath.Join/os.Open/os.Create/os.Remove/os.WriteFile reachable from request values; a listing aid); dashboard update by body id (guarded by membership in the server-side folder structure), default dashboards (defaultDBs/ relative to the working directory), the SPL parser producing the inputlookup file name, index names that were stored before the fix, symlinks and OS path resolution beyond the sandboxed real operations: correspondence/reading only",
         assumptions=["the data path is absolute and made of ordinary segments, the host id is one ordinary segment", "fasthttp/router hands a named parameter to the handler as one raw, non-empty path segment without '/' (exercised with the real router in every run)",
                      "an index name reaches GetBaseSegDir/GetBaseVTableDir/GetSuffixFile only through es/writer.ProcessIndexRequestPle / vtable.AddVirtualTable, a tag key reaches the tags tree only through metrics.EncodeDatapoint (both entry points are exercised for real inside the sandbox)"],
+    ),
+    "C07": dict(
+        # n = number of ingest histories; every history is expanded to ALL its crash points (one op line per
+        # number of completed model steps + one line for the step order)
+        suites=[("crash", 2, 12)],
+        facts={
+            # write order inside a buffer flush: column files (parallel) -> Wait -> block summary -> segment stats -> running .sfm
+            "AppendWipToSegfile.order": ["writeWip", "flushBloomIndex", "flushBlockRangeIndex", "Wait", "Wait", "flushBlockSummary", "FlushSegStats", "WriteRunningSegMeta", "FlushPqmr", "resetWipBlock", "checkAndRotateColFiles"],
+            # rotation: .sfm + segmeta.json line first, in-memory hand-over, then the next segment is opened
+            "checkAndRotateColFiles.order": ["flushStarTree", "addSegmeta", "updateRecentlyRotatedSegmentFiles", "AddSegMetaToMetadata", "CleanupUnrotatedSegment"],
+            "CleanupUnrotatedSegment.order": ["removeSegKeyFromUnrotatedInfo", "os.RemoveAll", "resetSegStore"],
+            # the suffix file is bumped BEFORE the segment directory is created
+            "resetSegStore.order": ["GetNextSuffix", "os.MkdirAll", "resetWipBlock"],
+            "getAndIncrementSuffixFromFile.order": ["getSuffix", "writeSuffix"],
+            "writeSuffix.order": ["os.WriteFile", "os.Rename"],
+            "FlushSegStats.order": ["os.OpenFile", "os.Rename"],
+            # the window: truncating open, then the write (no temp file + rename)
+            "WriteSfm.order": ["os.OpenFile", "Write", "Sync"],
+            "BulkAddRotatedSegmetas.order": ["WriteSfm", "os.OpenFile", "os.OpenFile", "Write", "Sync"],
+            "addSegmeta.order": ["BulkAddRotatedSegmetas"],
+            "WriteRunningSegMeta.order": ["WriteSfm"],
+        },
+        trusted_base=["harness/cmd/overlaygen/crash.go: re-prints segstore.go, segmetarw.go, segwriter.go, suffix.go and checksumfile.go from the repo's current AST with a call utils.VerifCrashPoint(label) before every statement of the flush / rotate / segmeta / suffix / chunk-writer functions (comments dropped, nothing else changed); the call is a no-op unless VERIF_CRASH_AT / VERIF_CRASH_LOG are set",
+                      "the mapping crash point -> number of completed model steps is the marker table in harness/cmd/corr/c07_crash.go (function + callee of the statement that just completed); the step ORDER is tied by the `X order` line of every history and by the call-order facts",
+                      "the restarted process is the in-process engine initialised in the order of cmd/startup (InitVTable, InitWriterNode, InitQueryNode) on the same directory; the check waits for the startup goroutine initSyncSegMetaForAllIds (log hook) before it queries; crash points that leave byte-identical data directories share one restarted process"],
+        decided_by_proof="for EVERY history of buffer flushes (each with any completion order of its column-file appends) and rotations and EVERY number k of completed file-system steps: (2) no block served by a restart lacks a column chunk and no flush is served twice (the flush in progress is all-or-nothing); (3) everything served is a completed flush or the one flush in progress; (4) the suffix the restarted writer takes is larger than every existing segment directory and segments without a directory have no files; (1) every completed flush is served exactly once — REFUTED at full strength by a counterexample theorem (two flushes, crash between the O_TRUNC open and the write of the second flush's WriteSfm: the zero-byte .sfm makes the open segment unadoptable and the first, completed flush is lost; confirmed on the real code at every crash point of that window, known finding) and PROVED under the exact guard 'the crash is not inside a WriteSfm truncate-write window'",
+        partial="process-crash model only (completed calls persist; torn writes, power loss and the missing fsync before the .sst/suffix renames are outside the property and the model). Not modelled: persistent-query result files (pqmr) and the pqid back-fill that rewrites the .sfm of ROTATED segments through the same WriteSfm (same window, not exercised), star-tree/sort-index files, time- or size-triggered flushes racing with ingest, segmeta.json rewrites by deletion/retention (removeSegmetas: instrumented, not driven by the histories), a second crash during recovery, blob-store upload, metrics segments. Record CONTENT after restart, filter (bloom/range index) and statistics (.sst) paths, startup without error and freshness of the next segment directory are checked end to end at every crash point but are not objects of the model (flush = opaque id)",
+        assumptions=["one index / one stream per node; the writer is the only process writing the data directory",
+                     "a flush is 'completed' when the flush/rotate call returned or AppendWipToSegfile reached its rotation check; in the model: when the running .sfm was written"],
     ),
 }
 
